@@ -33,6 +33,9 @@ type c03Scenario struct {
 	Names []string // node names written by a fault-free MakeRoot (sorted)
 	Fail  int      // index into Names of the failing write, -1 none
 	Bound int
+	// Prefix > 0: only the first Prefix schedules of the DFS are run (a tree too large to
+	// enumerate: the gate-saturation scenario); reported separately, never counted as exhaustive
+	Prefix int64
 }
 
 func c03SchedConfigs() []*world.Config {
@@ -41,12 +44,40 @@ func c03SchedConfigs() []*world.Config {
 		world.UintCfg(2, urange(1, 5), 1, B, "none"),
 		world.UintCfg(2, urange(1, 4), 1, M, "big"),
 		world.LKeyCfg(2, []uint8{0, 2, 0, 1, 0, 1}, 1, B, "none"),
+		world.UintCfg(2, urange(1, 64), 1, B, "none"), // saturation: 63 dirty nodes
 	}
 }
 
 func c03Scenarios(thorough bool) []c03Scenario {
 	var out []c03Scenario
 	for ci, cfg := range c03SchedConfigs() {
+		if len(cfg.Keys) > 20 {
+			if !thorough {
+				continue
+			}
+			// the saturation tree: all keys inserted, a DFS prefix with no fault and with one of three writes failing
+			var hist []world.Op
+			for k := range cfg.Keys {
+				hist = append(hist, world.Op{Kind: world.OpIns, K: k, V: 0})
+			}
+			w, err := explore.Replay(cfg, hist, true)
+			if err != nil {
+				continue
+			}
+			w.Store.ResetLog()
+			if _, err := w.Trees[0].MakeRoot(ctx); err != nil {
+				continue
+			}
+			var names []string
+			for _, c := range w.Store.Calls("store") {
+				names = append(names, c.Name)
+			}
+			sort.Strings(names)
+			for _, f := range []int{-1, 0, len(names) / 2, len(names) - 1} {
+				out = append(out, c03Scenario{Cfg: ci, Hist: hist, Names: names, Fail: f, Bound: 0, Prefix: 300})
+			}
+			continue
+		}
 		e := &explore.Explorer{Cfg: cfg, Ops: filterOps(SingleOps(cfg, true)), Mon: explore.NopMonitor{}, Reduced: true, KeepHists: true, MaxStates: 20000}
 		e.Run()
 		// one representative (the shortest history) per (number of writes, height, set of written names)
@@ -120,14 +151,15 @@ func filterOps(ops []world.Op) []world.Op {
 }
 
 type c03ShardResult struct {
-	Schedules int64
-	Scenarios int
-	MaxPoints int
-	Outcomes  int
-	Capped    bool
-	Findings  []report.Violation
-	Errors    []string
-	Sample    map[string]interface{}
+	Schedules       int64
+	Scenarios       int
+	MaxPoints       int
+	Outcomes        int
+	Capped          bool
+	Findings        []report.Violation
+	Errors          []string
+	Sample          map[string]interface{}
+	PrefixSchedules int64
 }
 
 func c03RunScenario(sc c03Scenario, res *c03ShardResult, budget int64) {
@@ -204,7 +236,15 @@ func c03RunScenario(sc c03Scenario, res *c03ShardResult, budget int64) {
 		}
 	}
 	ex := &sched.Explorer{Bound: sc.Bound, MaxPoints: 5000, Budget: budget}
+	if sc.Prefix > 0 {
+		ex.Budget = sc.Prefix
+		ex.MaxPoints = 20000
+	}
 	ex.Explore(body)
+	if sc.Prefix > 0 {
+		ex.Capped = false // by construction a prefix; counted separately
+		res.PrefixSchedules += ex.Schedules
+	}
 	if os.Getenv("VERIF_DEBUG") != "" {
 		fmt.Fprintf(os.Stderr, "scenario cfg=%d d=%d fail=%d bound=%d: schedules=%d maxpoints=%d outcomes=%d capped=%v\n", sc.Cfg, len(sc.Names), sc.Fail, sc.Bound, ex.Schedules, ex.MaxSeen, len(ex.Outcomes), ex.Capped)
 	}
@@ -288,10 +328,11 @@ func c03Schedules(run *report.Run, acc *pairAcc) {
 		}(i)
 	}
 	wg.Wait()
-	var schedules int64
+	var schedules, prefixSchedules int64
 	scen, maxp, outc := 0, 0, 0
 	for _, r := range results {
 		schedules += r.Schedules
+		prefixSchedules += r.PrefixSchedules
 		scen += r.Scenarios
 		outc += r.Outcomes
 		if r.MaxPoints > maxp {
@@ -314,6 +355,9 @@ func c03Schedules(run *report.Run, acc *pairAcc) {
 	run.Transitions += schedules
 	run.Validated += schedules
 	run.Extra["schedules_explored"] = schedules
+	if prefixSchedules > 0 {
+		run.Extra["of_which_dfs_prefix_on_the_63_node_saturation_tree_not_exhaustive"] = prefixSchedules
+	}
 	run.Extra["schedule_scenarios"] = scen
 	run.Extra["max_scheduling_points_in_one_execution"] = maxp
 	run.Extra["distinct_outcomes_summed_over_scenarios"] = outc
